@@ -14,6 +14,7 @@ Not in the model (recorded in DESIGN.md): use of top-level functions/classes bef
 definition, class-level fields read as bare names in methods, reassignment of a global inside a function.
 -/
 import MambaVerif.Lemmas.ScopeSound
+import MambaVerif.Lemmas.CtorAssign
 
 namespace MV.C09
 
@@ -58,5 +59,52 @@ example : (checkS (fun _ => none) 0 (fun _ => []) ⟨[], [], false⟩
     (.seq (.ifS .lit (.defv 1 false .lit) .skip) (.expr (.var 1)))).1 = [.undefined 1] := by decide
 example : (checkS (fun _ => none) 0 (fun _ => []) ⟨[], [], false⟩
     (.seq (.defv 1 false .lit) (.seq (.ifS .lit (.assign 1 .lit) .skip) (.expr (.var 1))))).1 = [] := by decide
+
+/-! ### attributes in constructors
+
+`uaS` / `uaB` / `uaA` (Model/CtorAssign.lean) is the model of the unassigned-attribute analysis of the
+constructor (`Environment::unassigned`: assignment, if with and without else, loops, match with and
+without an arm that matches anything, handle, bare return).  `runB body choices` runs the body along
+the path selected by `choices` (which branch, how many iterations, which arm, whether the handled
+expression raises). -/
+
+open MV in
+/-- **constructor_assigns_every_attribute**: a constructor body the analysis accepts has assigned to
+    every attribute declared without a value when it ends — on EVERY path, by falling through or by
+    `return` -/
+theorem constructor_assigns_every_attribute (fields : List Nat) (body : List CS)
+    (h : ctorAccepts fields body = true) (choices : List Nat) :
+    ∀ f ∈ fields, f ∈ (runB body choices []).2.1 := by
+  unfold ctorAccepts at h
+  cases hu : uaB body fields with
+  | none => simp [hu] at h
+  | some u =>
+    simp only [hu] at h
+    have hemp : u = [] := by simpa using h
+    subst hemp
+    have hp := ctorSoundB fields body fields [] choices [] hu (fun f hf => Or.inr hf)
+    intro f hf
+    cases hr : (runB body choices []).1 with
+    | true => exact hp.2 hr f hf
+    | false =>
+      rcases hp.1 hr f hf with ha | hn
+      · exact ha
+      · exact absurd hn (by simp)
+
+open MV in
+/-- non-vacuity: bodies with branches, loops, a match with a catch-all arm and a guarded return are accepted -/
+example : ctorAccepts [0, 1] [.assign 1, .ite [.assign 0] [.skip, .assign 0], .loop [.skip], .ifOnly [.ret]] = true
+    ∧ ctorAccepts [0] [.matchS [[.assign 0], [.assign 0, .skip]] true, .handle [[.skip]]] = true := by
+  decide
+
+open MV in
+/-- each rule of the analysis is needed: the rejected bodies below have a path that leaves attribute 0
+    unassigned (an empty loop, the missing else, no arm matching, nothing raised, the early return) -/
+example : ctorAccepts [0] [.loop [.assign 0]] = false ∧ (runB [.loop [.assign 0]] [0] []).2.1 = []
+    ∧ ctorAccepts [0] [.ifOnly [.assign 0]] = false ∧ (runB [.ifOnly [.assign 0]] [0] []).2.1 = []
+    ∧ ctorAccepts [0] [.matchS [[.assign 0]] false] = false ∧ (runB [.matchS [[.assign 0]] false] [0] []).2.1 = []
+    ∧ ctorAccepts [0] [.handle [[.assign 0]]] = false ∧ (runB [.handle [[.assign 0]]] [0] []).2.1 = []
+    ∧ ctorAccepts [0] [.ifOnly [.ret], .assign 0] = false ∧ (runB [.ifOnly [.ret], .assign 0] [1] []).2.1 = [] := by
+  decide
 
 end MV.C09
